@@ -29,3 +29,28 @@ def elems (first last step : Int) : List Int :=
 def nth (first step : Int) (i : Nat) : Int := first + (i : Int) * step
 
 end Edp.Spec.Range
+
+/-
+`Calendar.ISO` (Elixir documentation: `valid_date?/3`, `valid_time?/4`, `leap_year?/1`, `days_in_month/2`): the
+proleptic Gregorian calendar. A year is a leap year when it is divisible by 4 and not by 100, or by 400;
+months are 1..12; February has 29 days in a leap year and 28 otherwise, April, June, September and November have 30,
+the others 31; hours 0..23, minutes and seconds 0..59 (no leap seconds), microseconds 0..999_999 with a precision 0..6.
+-/
+namespace Edp.Spec.Cal
+
+def leap (y : Int) : Prop := (4 ∣ y ∧ ¬ 100 ∣ y) ∨ 400 ∣ y
+instance (y : Int) : Decidable (leap y) := by unfold leap; infer_instance
+
+def daysIn (y m : Int) : Int :=
+  if m = 2 then (if leap y then 29 else 28)
+  else if m = 4 ∨ m = 6 ∨ m = 9 ∨ m = 11 then 30
+  else 31
+
+def validDate (y m d : Int) : Prop := 1 ≤ m ∧ m ≤ 12 ∧ 1 ≤ d ∧ d ≤ daysIn y m
+instance (y m d : Int) : Decidable (validDate y m d) := by unfold validDate; infer_instance
+
+def validTime (h mi s us p : Int) : Prop :=
+  0 ≤ h ∧ h ≤ 23 ∧ 0 ≤ mi ∧ mi ≤ 59 ∧ 0 ≤ s ∧ s ≤ 59 ∧ 0 ≤ us ∧ us ≤ 999999 ∧ 0 ≤ p ∧ p ≤ 6
+instance (h mi s us p : Int) : Decidable (validTime h mi s us p) := by unfold validTime; infer_instance
+
+end Edp.Spec.Cal
